@@ -446,7 +446,7 @@ func (fv *FnV) exec(st *State, s ast.Stmt) *State {
 		for _, ac := range acs {
 			var g string
 			if strings.HasPrefix(ac.Var, "call:") && pre != nil {
-				fv.anchorCall = callOfStmt(s)
+				fv.anchorCall = callOfStmtNamed(s, ac.Var)
 				g = fv.evalClauseAtPre(st, ac.Cl, s.End(), pre)
 				fv.anchorCall = nil
 			} else {
